@@ -45,6 +45,8 @@ pub struct Oracles {
     pub chop: Option<Vec<u8>>,
     /// C18: keep the bytes in a real file at this path
     pub file_path: Option<std::path::PathBuf>,
+    /// the start image carries tolerated deviations: strict reopen is not an oracle
+    pub no_strict: bool,
 }
 
 pub struct Handle {
